@@ -156,7 +156,8 @@ def fault_programs(rng, w, n):
             out.append((src2, [str(rng.choice([0, 1, -1, -2, -3, -8, -9, 5]))], 'length_call_' + el))
     # nonlocal preempt
     for body in ('!baba(); !is_defeat();', '!baba();', '!baba(); !truth_is_defeat(x > 2);', 'if (x > 1) { !baba(); } !truth_is_defeat(x > 2);'):
-        for hide in ('if (false) { preempt {} }', 'while (false) { preempt {} }', 'for (;false;) { preempt {} }',
+        for hide in ('if (false) { preempt {} }', 'while (false) { preempt {} }', 'for (;false;) { preempt {} }', 'if (true) { } else { preempt {} }',
+                     'if (true) { } else if (false) { } else { preempt {} }', 'if (true) { } else { while (false) { preempt {} } }', 'if (true) { } else preempt { }',
                      'for (int k = 0; k < 0; k += 1) { { preempt { write("p"); } } }', '{ return; preempt {} }'):
             src = ('empty !baba() { write("b"); %s }\n'
                    'empty @is_you(int x) { write("pre "); try { %s } undo { write("U"); } write(" post"); }' % (hide, body))
@@ -404,6 +405,12 @@ def frame_pressure_programs(rng, n):
             return '    write(%s); write(\' \');' % e
         if helper:
             lines.append('int mix(int a, int b, int c) {\n    int t = a * 3 + b;\n    int u = t - c * 2;\n    return (t + u) * 1 + c;\n}')
+        byte_tail = k % 3 == 0
+        if byte_tail:
+            # a leaf whose deepest slots are byte-sized, initialised without a word temporary (literal / variable / element)
+            nb = rng.randint(2, 7)
+            body = ' '.join('byte q%d = %s;' % (j, rng.choice(['35', 'c', "'#'", 'c'])) for j in range(nb))
+            lines.append('byte leaf(byte c) {\n    %s bool f = true;\n    return q%d;\n}' % (body, nb - 1))
         lines.append('empty @is_you(int n) {')
         arrays = []
         names = []
@@ -425,6 +432,11 @@ def frame_pressure_programs(rng, n):
                 names.append(x)
             if rng.random() < 0.5 and not bytes_only:
                 lines.append('    write(n * 1000 + %d); write(\' \');' % rng.randint(0, 999))
+        if byte_tail:
+            lines.append('    byte vla[n + 9];')
+            lines.append('    for (int k = 0; k < vla.length; k += 1) { vla[k] = (97 + k) is byte; }')
+            lines.append('    byte r = leaf(33 is byte);')
+            lines.append('    write(vla); write(r);')
         for a, el, ln in arrays:
             for i in range(ln):
                 lines.append(show('%s[%d]' % (a, i), el))
@@ -550,4 +562,24 @@ def preempt_programs():
                            'empty @is_you(int x) {\n    @run(x);\n    @run(1);\n    @run(x + 1);\n    writeln(\'e\');\n}\n' % (body, hk))
                 for x in ('1', '4', '5', '6', '9'):
                     out.append(('pre_%s_%s_%s' % (hk, tag, where), src, [x]))
+    return out
+
+
+def exprstmt_programs():
+    """(tag, src, args): expression statements whose root is not a call but which contain one (an operator, a cast, an index, a
+    literal, `??`), for-loop clauses of that shape, conditions that are evaluated for their effect only: every call runs once"""
+    out = []
+    pre = ('int ticks = 0;\nint tick() { write(\'t\'); ticks += 1; return 3; }\nbool tickb() { write(\'b\'); ticks += 1; return true; }\n'
+           'int[] arr = [1, 2, 3, 4, 5];\n')
+    stmts = {'neg': '-tick();', 'arith': 'tick() + 1;', 'mul': '2 * tick() * tick();', 'index': 'arr[tick()];', 'len': '[tick(), 2].length;',
+             'cast': 'tick() is byte;', 'tobool': 'tick() is bool;', 'not': 'not tickb();', 'cmp': 'tick() < 5;', 'and': 'tickb() and tickb();',
+             'or': 'tickb() or tickb();', 'lit': '[tick()];', 'paren': '(tick());', 'eq': 'tickb() == tickb();', 'spec': 'tick() ?? 0;',
+             'spec2': '0 ?? tick();', 'call': 'tick();'}
+    for tag, st in stmts.items():
+        src = pre + 'empty @is_you(int d) { %s %s write(\' \'); write(ticks); writeln(); }\n' % (st, st)
+        out.append(('xs_' + tag, src, ['1']))
+    out.append(('xs_for_clause', pre + 'empty @is_you(int d) { for (int i = 0; i < 3; tick() + 1) { i += 1; write(i); } write(ticks); writeln(); }\n', ['1']))
+    out.append(('xs_for_clause2', pre + 'empty @is_you(int d) { for (-tick(); ticks < 4; arr[tick()]) { write(\'.\'); } write(ticks); writeln(); }\n', ['1']))
+    out.append(('xs_in_fn', pre + 'empty run() { -tick(); arr[tick()]; tick() is bool; }\nempty @is_you(int d) { run(); run(); write(ticks); writeln(); }\n', ['1']))
+    out.append(('xs_fault', pre + 'empty @is_you(int d) { write(\'p\'); arr[tick() + d + 2]; 10 / (d - 1); write(\'q\'); writeln(); }\n', ['1']))
     return out
